@@ -113,6 +113,11 @@ pub trait Prop: Sync + Send {
     }
 }
 
+/// per-run history hashes of the first runs of a hermetic (C17) batch, as computed in the long-lived main
+/// process; the cross-process scenario compares them with what short-lived child processes compute
+pub static MAIN_HISTS: std::sync::Mutex<Option<Vec<(u64, u64)>>> = std::sync::Mutex::new(None);
+pub const MAIN_HISTS_MAX: u64 = 40_000;
+
 pub fn registry() -> Vec<Box<dyn Prop>> {
     vec![Box::new(c01::C01), Box::new(c03::C03), Box::new(c08::C08), Box::new(c09::C09), Box::new(c15::C15), Box::new(c17::C17), Box::new(c18::C18)]
 }
